@@ -1,6 +1,380 @@
 package main
 
-// extractFacts: structural facts of the source as Lean data (FACTS). Filled in incrementally.
-func extractFacts(repo string) (string, error) {
-	return "-- GENERATED by /verif/translate (facts); do not edit, not committed\nnamespace Failsafe.Generated.Facts\nend Failsafe.Generated.Facts\n", nil
+// FACTS: structural facts of /repo's current source, extracted syntactically with go/ast.
+//
+// Output 1: Generated/Facts.lean  — the small facts that are *inputs* of Lean models (booleans, numbers, short lists).
+// Output 2: Generated/facts.json  — all facts, including ordered effect lists of the policy executors, select-branch
+//                                    tables, lock discipline, spawn/timer sites. ./check compares the ones a theorem
+//                                    rests on with the committed expectations in translate/facts_expected.json.
+
+import (
+	"encoding/json"
+	"fmt"
+	"go/ast"
+	"go/parser"
+	"go/printer"
+	"os"
+	"path/filepath"
+	"sort"
+	"strings"
+)
+
+func srcOf(n ast.Node) string {
+	var sb strings.Builder
+	printer.Fprint(&sb, fset, n)
+	return strings.Join(strings.Fields(sb.String()), " ")
 }
+
+type factx struct {
+	repo  string
+	files map[string]*ast.File
+	errs  []string
+}
+
+func (fx *factx) file(rel string) *ast.File {
+	if f, ok := fx.files[rel]; ok {
+		return f
+	}
+	f, err := parser.ParseFile(fset, filepath.Join(fx.repo, rel), nil, 0)
+	if err != nil {
+		fx.errs = append(fx.errs, err.Error())
+		f = &ast.File{}
+	}
+	fx.files[rel] = f
+	return f
+}
+
+func (fx *factx) fn(rel, recv, name string) *ast.FuncDecl {
+	for _, d := range fx.file(rel).Decls {
+		if fd, ok := d.(*ast.FuncDecl); ok && fd.Name.Name == name && recvName(fd) == recv {
+			return fd
+		}
+	}
+	fx.errs = append(fx.errs, fmt.Sprintf("function %s.%s not found in %s", recv, name, rel))
+	return nil
+}
+
+// selectTable: per select statement, per branch: (comm kind, what the branch returns)
+func selectTable(fd *ast.FuncDecl) []string {
+	var out []string
+	if fd == nil {
+		return out
+	}
+	idx := 0
+	ast.Inspect(fd.Body, func(n ast.Node) bool {
+		sel, ok := n.(*ast.SelectStmt)
+		if !ok {
+			return true
+		}
+		for _, c := range sel.Body.List {
+			cc := c.(*ast.CommClause)
+			kind := "default"
+			if cc.Comm != nil {
+				s := srcOf(cc.Comm)
+				switch {
+				case strings.Contains(s, "semaphore <-"):
+					kind = "sendSemaphore"
+				case strings.Contains(s, "Done()") || strings.Contains(s, "Canceled()"):
+					kind = "cancel"
+				case strings.Contains(s, "timer.C"):
+					kind = "timer"
+				case strings.Contains(s, "<-resultChan"):
+					kind = "recvResult"
+				default:
+					kind = "other:" + s
+				}
+			}
+			ret := "falls"
+			for _, st := range cc.Body {
+				if r, ok := st.(*ast.ReturnStmt); ok && len(r.Results) > 0 {
+					ret = "returns " + srcOf(r.Results[len(r.Results)-1])
+				}
+				if ifs, ok := st.(*ast.IfStmt); ok {
+					for _, st2 := range ifs.Body.List {
+						if r, ok := st2.(*ast.ReturnStmt); ok && len(r.Results) > 0 {
+							ret = "if(" + srcOf(ifs.Cond) + ") returns " + srcOf(r.Results[len(r.Results)-1])
+						}
+					}
+				}
+			}
+			out = append(out, fmt.Sprintf("select%d %s -> %s", idx, kind, ret))
+		}
+		idx++
+		return true
+	})
+	return out
+}
+
+// effects: ordered calls / returns / go statements in a body, each prefixed by the guards it is nested under
+func effects(n ast.Node, guard string, out *[]string) {
+	if n == nil {
+		return
+	}
+	ast.Inspect(n, func(x ast.Node) bool {
+		switch v := x.(type) {
+		case *ast.IfStmt:
+			if v.Init != nil {
+				effects(v.Init, guard, out)
+			}
+			effects(v.Cond, guard, out)
+			effects(v.Body, guard+"["+srcOf(v.Cond)+"]", out)
+			if v.Else != nil {
+				effects(v.Else, guard+"[!"+srcOf(v.Cond)+"]", out)
+			}
+			return false
+		case *ast.FuncLit:
+			*out = append(*out, guard+"funclit{")
+			effects(v.Body, guard+"  ", out)
+			*out = append(*out, guard+"}")
+			return false
+		case *ast.GoStmt:
+			*out = append(*out, guard+"GO")
+		case *ast.ForStmt:
+			*out = append(*out, guard+"for{")
+			effects(v.Body, guard+"  ", out)
+			*out = append(*out, guard+"}")
+			return false
+		case *ast.SelectStmt:
+			*out = append(*out, guard+"select")
+		case *ast.ReturnStmt:
+			for _, r := range v.Results {
+				effects(r, guard, out)
+			}
+			rs := []string{}
+			for _, r := range v.Results {
+				if _, isCall := r.(*ast.CallExpr); isCall {
+					rs = append(rs, "<call>")
+				} else if _, isLit := r.(*ast.FuncLit); isLit {
+					rs = append(rs, "<funclit>")
+				} else {
+					rs = append(rs, srcOf(r))
+				}
+			}
+			*out = append(*out, guard+"return "+strings.Join(rs, ","))
+			return false
+		case *ast.CallExpr:
+			fn := srcOf(v.Fun)
+			for _, a := range v.Args {
+				effects(a, guard, out)
+			}
+			if fl, ok := v.Fun.(*ast.FuncLit); ok {
+				effects(fl, guard, out)
+			}
+			if fn == "time.NewTimer" || fn == "time.AfterFunc" || fn == "time.Sleep" {
+				fn += "(" + srcOf(v.Args[0]) + ")"
+			}
+			*out = append(*out, guard+"call "+fn)
+			return false
+		}
+		return true
+	})
+}
+
+func (fx *factx) effectsOf(rel, recv, name string) []string {
+	out := []string{}
+	if fd := fx.fn(rel, recv, name); fd != nil {
+		effects(fd.Body, "", &out)
+	}
+	return out
+}
+
+// locked: does the method start with <x>.Lock() followed by defer <x>.Unlock()?
+func lockedMethod(fd *ast.FuncDecl) string {
+	if fd == nil || len(fd.Body.List) < 2 {
+		return "none"
+	}
+	a, ok1 := fd.Body.List[0].(*ast.ExprStmt)
+	b, ok2 := fd.Body.List[1].(*ast.DeferStmt)
+	if ok1 && ok2 {
+		if c, ok := a.X.(*ast.CallExpr); ok && strings.HasSuffix(srcOf(c.Fun), ".Lock") && strings.HasSuffix(srcOf(b.Call.Fun), ".Unlock") {
+			return strings.TrimSuffix(srcOf(c.Fun), ".Lock")
+		}
+	}
+	// comment lines are not statements, so a leading comment does not matter
+	return "none"
+}
+
+func leanStrList(xs []string) string {
+	q := []string{}
+	for _, x := range xs {
+		q = append(q, fmt.Sprintf("%q", x))
+	}
+	return "[" + strings.Join(q, ", ") + "]"
+}
+
+func extractFacts(repo string) (string, error) {
+	fx := &factx{repo: repo, files: map[string]*ast.File{}}
+	facts := map[string]any{}
+
+	// 1. which builder methods mark errors as checked
+	ecs := []string{}
+	for _, m := range []string{"HandleErrors", "HandleErrorTypes", "HandleResult", "HandleIf"} {
+		if fd := fx.fn("policy/policy.go", "BaseFailurePolicy", m); fd != nil {
+			ast.Inspect(fd.Body, func(n ast.Node) bool {
+				if as, ok := n.(*ast.AssignStmt); ok && len(as.Lhs) == 1 && srcOf(as.Lhs[0]) == "p.errorsChecked" && srcOf(as.Rhs[0]) == "true" {
+					ecs = append(ecs, m)
+				}
+				return true
+			})
+		}
+	}
+	facts["errorsCheckedSetBy"] = ecs
+
+	// 2. select tables
+	sel := map[string][]string{}
+	for _, f := range []string{"AcquirePermit", "AcquirePermitWithMaxWait", "TryAcquirePermit"} {
+		sel["bulkhead."+f] = selectTable(fx.fn("bulkhead/bulkhead.go", "bulkhead", f))
+	}
+	for _, f := range []string{"AcquirePermits", "acquirePermitsWithMaxWait"} {
+		sel["ratelimiter."+f] = selectTable(fx.fn("ratelimiter/ratelimiter.go", "rateLimiter", f))
+	}
+	sel["retry.Apply"] = selectTable(fx.fn("retrypolicy/retryexecutor.go", "executor", "Apply"))
+	sel["hedge.Apply"] = selectTable(fx.fn("hedgepolicy/hedgeexecutor.go", "executor", "Apply"))
+	facts["selects"] = sel
+
+	// 3. ordered effects of the functions the models transcribe
+	eff := map[string][]string{}
+	for _, e := range [][3]string{
+		{"executor.go", "executor", "execute"}, {"executor.go", "executor", "executeAsync"}, {"executor.go", "executor", "executeSync"},
+		{"result.go", "executionResult", "record"}, {"result.go", "executionResult", "Cancel"}, {"result.go", "executionResult", "Get"},
+		{"policy/policyexecutor.go", "BaseExecutor", "Apply"}, {"policy/policyexecutor.go", "BaseExecutor", "PostExecute"},
+		{"retrypolicy/retryexecutor.go", "executor", "Apply"}, {"retrypolicy/retryexecutor.go", "executor", "OnFailure"},
+		{"circuitbreaker/circuitbreakerexecutor.go", "executor", "PreExecute"}, {"circuitbreaker/circuitbreakerexecutor.go", "executor", "OnSuccess"},
+		{"circuitbreaker/circuitbreakerexecutor.go", "executor", "OnFailure"}, {"circuitbreaker/circuitbreaker.go", "circuitBreaker", "transitionTo"},
+		{"bulkhead/bulkheadexecutor.go", "executor", "PreExecute"}, {"bulkhead/bulkheadexecutor.go", "executor", "PostExecute"},
+		{"ratelimiter/ratelimiterexecutor.go", "executor", "Apply"}, {"ratelimiter/ratelimiter.go", "rateLimiter", "acquirePermitsWithMaxWait"},
+		{"ratelimiter/ratelimiter.go", "rateLimiter", "AcquirePermits"},
+		{"timeout/timeoutexecutor.go", "executor", "Apply"}, {"hedgepolicy/hedgeexecutor.go", "executor", "Apply"},
+		{"fallback/fallbackexecutor.go", "executor", "Apply"}, {"cachepolicy/cacheexecutor.go", "executor", "PreExecute"},
+		{"cachepolicy/cacheexecutor.go", "executor", "PostExecute"}, {"cachepolicy/cacheexecutor.go", "executor", "getCacheKey"},
+		{"execution.go", "execution", "RecordResult"}, {"execution.go", "execution", "InitializeRetry"}, {"execution.go", "execution", "Cancel"},
+		{"execution.go", "execution", "isCanceledWithResult"}, {"execution.go", "execution", "CopyForHedge"}, {"execution.go", "execution", "CopyForCancellable"},
+		{"execution.go", "execution", "record"}, {"internal/util/util.go", "", "MergeContexts"},
+		{"failsafehttp/http.go", "", "doRequest"}, {"failsafegrpc/client.go", "", "NewUnaryClientInterceptorWithExecutor"},
+		{"failsafegrpc/server.go", "", "NewUnaryServerInterceptorWithExecutor"},
+	} {
+		key := strings.TrimSuffix(filepath.Base(e[0]), ".go") + ":" + e[1] + "." + e[2]
+		eff[key] = fx.effectsOf(e[0], e[1], e[2])
+	}
+	facts["effects"] = eff
+
+	// 4. root execution of executeAsync gets the cancel function
+	has := false
+	if fd := fx.fn("executor.go", "executor", "executeAsync"); fd != nil {
+		ast.Inspect(fd.Body, func(n ast.Node) bool {
+			if as, ok := n.(*ast.AssignStmt); ok {
+				for _, l := range as.Lhs {
+					if srcOf(l) == "exec.cancelFunc" {
+						has = true
+					}
+				}
+			}
+			return true
+		})
+	}
+	facts["rootHasCancelFunc"] = has
+
+	// 5. goroutine / timer spawn sites in non-test library code (file:function, no line numbers)
+	sites := []string{}
+	filepath.Walk(repo, func(p string, info os.FileInfo, err error) error {
+		if err != nil {
+			return nil
+		}
+		if info.IsDir() && (info.Name() == "examples" || info.Name() == "testutil" || info.Name() == "policytesting" || info.Name() == "test" || info.Name() == ".git") {
+			return filepath.SkipDir
+		}
+		if !strings.HasSuffix(p, ".go") || strings.HasSuffix(p, "_test.go") || strings.HasSuffix(p, "verif_hooks.go") {
+			return nil
+		}
+		rel := strings.TrimPrefix(p, repo+"/")
+		f := fx.file(rel)
+		for _, d := range f.Decls {
+			fd, ok := d.(*ast.FuncDecl)
+			if !ok || fd.Body == nil {
+				continue
+			}
+			where := rel + ":" + recvName(fd) + "." + fd.Name.Name
+			ast.Inspect(fd.Body, func(n ast.Node) bool {
+				switch v := n.(type) {
+				case *ast.GoStmt:
+					sites = append(sites, "go "+where)
+				case *ast.CallExpr:
+					fn := srcOf(v.Fun)
+					if fn == "time.AfterFunc" || fn == "time.NewTimer" || fn == "time.Sleep" || fn == "time.After" || fn == "time.NewTicker" || fn == "time.Tick" || fn == "context.AfterFunc" {
+						sites = append(sites, fn+" "+where)
+					}
+				}
+				return true
+			})
+		}
+		return nil
+	})
+	sort.Strings(sites)
+	facts["spawnSites"] = sites
+
+	// 6. lock discipline of the mutex-guarded objects
+	locks := map[string]string{}
+	for _, m := range []string{"TryAcquirePermit", "Open", "HalfOpen", "Close", "State", "RemainingDelay", "Executions", "Failures", "FailureRate", "Successes", "SuccessRate", "RecordFailure", "RecordError", "RecordResult", "RecordSuccess"} {
+		locks["circuitBreaker."+m] = lockedMethod(fx.fn("circuitbreaker/circuitbreaker.go", "circuitBreaker", m))
+	}
+	locks["smoothStats.acquirePermits"] = lockedMethod(fx.fn("ratelimiter/ratelimiterstats.go", "smoothStats", "acquirePermits"))
+	locks["burstyStats.acquirePermits"] = lockedMethod(fx.fn("ratelimiter/ratelimiterstats.go", "burstyStats", "acquirePermits"))
+	for _, m := range []string{"RecordResult", "InitializeRetry", "Cancel", "IsCanceledWithResult"} {
+		locks["execution."+m] = lockedMethod(fx.fn("execution.go", "execution", m))
+	}
+	facts["locks"] = locks
+
+	// 7. hedge result channel capacity
+	hedgeCap := -1
+	if fd := fx.fn("hedgepolicy/hedgeexecutor.go", "executor", "Apply"); fd != nil {
+		ast.Inspect(fd.Body, func(n ast.Node) bool {
+			if as, ok := n.(*ast.AssignStmt); ok && len(as.Lhs) == 1 && srcOf(as.Lhs[0]) == "resultChan" {
+				if c, ok := as.Rhs[0].(*ast.CallExpr); ok && srcOf(c.Fun) == "make" {
+					hedgeCap = 0
+					if len(c.Args) == 2 {
+						fmt.Sscanf(srcOf(c.Args[1]), "%d", &hedgeCap)
+					}
+				}
+			}
+			return true
+		})
+	}
+	facts["hedgeChanCap"] = hedgeCap
+
+	// 8. the composition loop of execute
+	loop := "unknown"
+	if fd := fx.fn("executor.go", "executor", "execute"); fd != nil {
+		ast.Inspect(fd.Body, func(n ast.Node) bool {
+			if fs, ok := n.(*ast.ForStmt); ok && fs.Init != nil && fs.Cond != nil && fs.Post != nil {
+				loop = srcOf(fs.Init) + "; " + srcOf(fs.Cond) + "; " + srcOf(fs.Post) + " { " + srcOf(fs.Body) + " }"
+			}
+			return true
+		})
+	}
+	facts["executeLoop"] = loop
+
+	if len(fx.errs) > 0 {
+		facts["errors"] = fx.errs
+	}
+	js, _ := json.MarshalIndent(facts, "", " ")
+	factsJSON = js
+
+	var sb strings.Builder
+	sb.WriteString("-- GENERATED by /verif/translate (FACTS) from /repo on every check; do not edit, not committed\n")
+	sb.WriteString("namespace Failsafe.Generated.Facts\n\n")
+	sb.WriteString("/-- builder methods of `BaseFailurePolicy` that set `errorsChecked` -/\n")
+	sb.WriteString("def errorsCheckedSetBy : List String := " + leanStrList(ecs) + "\n\n")
+	sb.WriteString("/-- `executeAsync` gives the root execution its cancel function -/\n")
+	sb.WriteString(fmt.Sprintf("def rootHasCancelFunc : Bool := %v\n\n", has))
+	sb.WriteString("/-- capacity of the hedge executor's result channel (-1 = not found) -/\n")
+	sb.WriteString(fmt.Sprintf("def hedgeChanCap : Int := %d\n\n", hedgeCap))
+	sb.WriteString("/-- goroutine and timer spawn sites of the library (kind file:receiver.function) -/\n")
+	sb.WriteString("def spawnSites : List String := " + leanStrList(sites) + "\n\n")
+	sb.WriteString("end Failsafe.Generated.Facts\n")
+	if len(fx.errs) > 0 {
+		return sb.String(), fmt.Errorf("%s", strings.Join(fx.errs, "; "))
+	}
+	return sb.String(), nil
+}
+
+var factsJSON []byte
